@@ -26,12 +26,14 @@ import z3
 import sym, models, strmodels, stridx, gcmodels, targets
 import opcheck as Q
 from sym import Sc, Adt, Ref, Opaque, Inconclusive
-from opkernels import prim, CRATE_PREFIXES
+from opkernels import prim, opt_prim, CRATE_PREFIXES
 
 METHODS = {  # method -> (variant, argument shape)
     "len": ("VecLen", None), "push": ("VecPush", "Int"), "remove": ("VecRemove", "Index"), "reverse": ("VecReverse", None),
     "clear": ("VecClear", None), "clone": ("VecClone", None), "index_of": ("VecIndexOf", "Int"),
     "join": ("VecJoin", "List"), "join_self": ("VecJoin", "Self"),
+    # a list of optionals ([int?...]) searched with a plain value: `Primitive::equals` looks through the optional
+    "index_of_opt": ("VecIndexOf", "Int"),
 }
 NMAX = {"quick": 3, "thorough": 5}
 MMAX = {"quick": 2, "thorough": 2}
@@ -57,8 +59,12 @@ class ListSummary:
 
 
 def _ints(o, vec):
+    """payloads of the elements (plain ints, or present optionals holding an int)"""
     out = []
     for it in vec.fields:
+        if isinstance(it, Adt) and it.ty == "Primitive" and it.variant == "Optional" and it.fields[0].variant == "Some":
+            ref = it.fields[0].fields[0].fields[0].fields[0]
+            it = o.cells[ref.cell]
         if not (isinstance(it, Adt) and it.ty == "Primitive" and it.variant == "Int"):
             raise Inconclusive("list element %r" % (it,))
         out.append(it.fields[0].e)
@@ -115,7 +121,12 @@ class ListKernels:
         elems = [z3.BitVec("e%d" % i, 32) for i in range(n)]
         other = [z3.BitVec("f%d" % i, 32) for i in range(m)] if shape == "List" else []
         arg = z3.BitVec("x", 32) if shape in ("Int", "Index") else None
-        cells = {RECV: gcmodels.gccell(Adt("Vec", None, [prim("Int", Sc("i32", e)) for e in elems]))}
+        cells = {}
+        if method == "index_of_opt":
+            items = [opt_prim(cells, ("elem", i), "SomeInt", Sc("i32", e)) for i, e in enumerate(elems)]
+        else:
+            items = [prim("Int", Sc("i32", e)) for e in elems]
+        cells[RECV] = gcmodels.gccell(Adt("Vec", None, items))
         ops = [vecp(RECV)]
         if shape == "List":
             cells[OTHER] = gcmodels.gccell(Adt("Vec", None, [prim("Int", Sc("i32", e)) for e in other]))
@@ -162,7 +173,7 @@ def oracle(s):
         return [(T, ("none",), [], None)]
     if s.method == "clone":
         return [(T, ("Vector", "fresh", e), e, None)]
-    if s.method == "index_of":
+    if s.method in ("index_of", "index_of_opt"):
         out, before = [], []
         for k in range(n):
             out.append((z3.And(*(before + [e[k] == x])), ("SomeInt", z3.BitVecVal(k, 32)), e, None))
@@ -199,7 +210,8 @@ def _res_eq(got, want):
 
 # ---------------------------------------------------------------- concrete evaluation / native vectors
 def native_args(s, ev, fv, xv):
-    args = [("Int", v & 0xFFFFFFFF) for v in ev] + [("Int", v & 0xFFFFFFFF) for v in fv]
+    ek = "SomeInt" if s.method == "index_of_opt" else "Int"
+    args = [(ek, v & 0xFFFFFFFF) for v in ev] + [("Int", v & 0xFFFFFFFF) for v in fv]
     if xv is not None:
         args.append(("Int", xv & 0xFFFFFFFF))
     return args
@@ -212,11 +224,11 @@ def _subs(s, ev, fv, xv):
     return out
 
 
-def _show_items(es, subs):
-    return ",".join("Int:%x" % z3.simplify(z3.substitute(e, *subs)).as_long() for e in es)
+def _show_items(es, subs, kind="Int"):
+    return ",".join("%s:%x" % (kind, z3.simplify(z3.substitute(e, *subs)).as_long()) for e in es)
 
 
-def render(kind, res, post0, post1, subs, self_alias=False):
+def render(kind, res, post0, post1, subs, self_alias=False, elem_kind="Int"):
     """the native harness' result line"""
     if kind == "panic":
         return "PANIC"
@@ -232,7 +244,7 @@ def render(kind, res, post0, post1, subs, self_alias=False):
         tag = "same" if res[1] == RECV else "other" if res[1] == OTHER else "fresh"
         head = "OK Vector:%s:%s" % (tag, _show_items(res[2], subs))
     third = _show_items(post0, subs) if self_alias else _show_items(post1, subs) if post1 is not None else ""
-    return "%s | %s | %s" % (head, _show_items(post0, subs), third)
+    return "%s | %s | %s" % (head, _show_items(post0, subs, elem_kind), third)
 
 
 def eval_summary(s, ev, fv, xv):
@@ -240,7 +252,8 @@ def eval_summary(s, ev, fv, xv):
     hits = []
     for pc, kind, res, post0, post1 in s.paths:
         if z3.is_true(z3.simplify(z3.substitute(pc, *subs))):
-            hits.append(render(kind, res, post0, post1, subs, self_alias=(s.method == "join_self")))
+            hits.append(render(kind, res, post0, post1, subs, self_alias=(s.method == "join_self"),
+                               elem_kind="SomeInt" if s.method == "index_of_opt" else "Int"))
     if not hits or any(h != hits[0] for h in hits):
         raise Inconclusive("list.%s[%s]: %d paths enabled on %r %r %r" % (s.method, s.arm, len(hits), ev, fv, xv))
     return hits[0]
@@ -319,7 +332,7 @@ def check_summary(s, profile, qs, timeout_ms, seed, prop):
         f.predicted_text = norm_native(eval_summary(s, ev, fv, xv))
         f.predicted = None
         f.via = "built-in"
-        f.human = "%r.%s(%s)" % (ev, s.method.replace("_self", ""), "self" if s.method == "join_self" else repr(fv) if s.method == "join" else "" if xv is None else xv)
+        f.human = "%r.%s(%s)" % (ev, s.method.replace("_self", "").replace("_opt", " [list of present optionals]"), "self" if s.method == "join_self" else repr(fv) if s.method == "join" else "" if xv is None else xv)
         return f
 
     for pi, (pc, kind, res, post0, post1) in enumerate(s.paths):
